@@ -17,7 +17,11 @@ import time
 
 VERIF = os.path.dirname(os.path.dirname(os.path.abspath(__file__)))
 REPO = os.environ.get("VERIF_REPO", "/repo")
-BUILD = os.path.join(REPO, "_build")
+# build tree: generated headers + prebuilt libraries/binaries. A scratch worktree (VERIF_REPO) has none of
+# its own unless VERIF_BUILD names one; header-only / source-compiled harnesses then borrow /repo/_build
+# for the generated configuration headers only.
+BUILD = os.environ.get("VERIF_BUILD") or (os.path.join(REPO, "_build") if os.path.exists(os.path.join(REPO, "_build", "build.ninja")) else "/repo/_build")
+BUILD_MATCHES_REPO = os.path.realpath(BUILD).startswith(os.path.realpath(REPO) + os.sep) or bool(os.environ.get("VERIF_BUILD"))
 LEAN = os.path.join(VERIF, "lean")
 ALLOWED_AXIOMS = {"propext", "Classical.choice", "Quot.sound"}
 FORBIDDEN = re.compile(
@@ -243,7 +247,10 @@ class Check:
         return out
 
     def ensure_targets(self, *targets, timeout=7200):
-        """bring ninja targets of /repo/_build up to date with the working tree (no-op when unchanged)"""
+        """bring ninja targets of the build tree up to date with the working tree (no-op when unchanged)"""
+        if not BUILD_MATCHES_REPO:
+            raise BuildError("VERIF_REPO=%s has no build tree of its own (set VERIF_BUILD): refusing to use the "
+                             "binaries of %s, which were built from another tree" % (REPO, BUILD), "")
         lock = open(os.path.join(VERIF, "work", ".ninja.lock"), "w")
         fcntl.flock(lock, fcntl.LOCK_EX)
         try:
